@@ -156,7 +156,10 @@ def spline_case(rng, order, d, n, ratio=None, t0=None, mode=None, with_grad=True
     P = points(rng, n + 1, d, short=short)
     bc = bc_vals(rng, order, d, short=short)
     if t0 is None:
-        t0 = rng.choice([0.0, 0.0, real(rng, -50, 50, short, 2), rng.choice([-1, 1]) * real(rng, 1e3, 1e5, short, 0)])
+        t0 = rng.choice([0.0, 0.0, real(rng, -50, 50, short, 2), rng.choice([-1, 1]) * real(rng, 1e3, 1e5, short, 0),
+                         # wall-clock stamps: nothing but the knot times may depend on the start time, however large it is
+                         # (a duration recovered as a difference of absolute knot times is off by ulp(t0)/h there)
+                         rng.choice([1.7e9 + 0.123, -4.1e10 - 0.7, 1.5e12 + 0.25, 86400.0 * 19000 + 0.3])])
     mode = mode or rng.choice(['dur', 'dur', 'tp'])
     c = SplineCase(order, d, n, h, P, bc, t0=t0, mode=mode)
     # query order / API variant: 0 = value-returning getters; 1 = reversed order, reference overloads writing into
